@@ -34,6 +34,8 @@ KINDS = [
     ("W_SET", r"<dyn FullCache as FullCache>::set$"),
     ("W_TOUCH", r"<dyn FullCache as FullCache>::touch$"),
     ("W_TEMPDIR", r"<dyn FullCache as FullCache>::temp_dir$"),
+    ("L_GET", r"<dyn ReadSide as ReadSide>::get$"),
+    ("L_TOUCH", r"<dyn ReadSide as ReadSide>::touch$"),
     ("R_GET", r"ReadOnlyCache::get(::<.*>)?$"),
     ("R_TOUCH", r"ReadOnlyCache::touch(::<.*>)?$"),
     ("SYNCPATH", r"stack::Cache::maybe_sync_path$"),
@@ -1002,6 +1004,131 @@ def native_ops_rewind(scratch):
 def native_ops_flush(scratch):
     nat, sc = _native(scratch)
     return _first_reproduced([sc.o_flush_failed_published(mk_scen(6, w=None, r=None), nat, ""), sc.o_flush_failed_published(mk_scen(7, w=None, r=None), nat, "")])
+
+
+# ---- the read-only stack: ReadOnlyCache::{get, touch}::doit (bounded unrolling of the scan) ---------------------------
+MAX_LEVELS = 3
+
+
+def readonly_glue(funcs, text):
+    viol = {}
+    decls = []
+    fnames = []
+    counts = {}
+
+    def bad(rule, p, msg):
+        viol.setdefault(rule, []).append((p["pc"], msg))
+
+    def m_iter(ex, args, pc):
+        return [([], ("adt", "SliceIter", 0, {0: ("opaque", "LEVELS", "list"), 1: ("int", "0", 64, False)}))]
+
+    def m_next(ex, args, pc):
+        it = ex.project(args[0], ("deref",))
+        pos = int(it[3][1][1])
+        more = ex.fresh_bool("more_levels_%d" % pos)
+        outs = [(["(not %s)" % more[1]], ("adt", "Option", 0, {}))]
+        if pos < MAX_LEVELS:
+            lvl = ("ref", [("opaque", "LEVEL%d" % pos, "Box<dyn ReadSide>")])
+            newit = ("adt", "SliceIter", 0, {0: it[3][0], 1: ("int", str(pos + 1), 64, False)})
+            outs.append(([more[1]], ("adt", "Option", 1, {0: lvl}), args[0], newit))
+        return outs
+
+    def m_as_mut(ex, args, pc):
+        v = ex.project(args[0], ("deref",)) if args[0][0] == "ref" else args[0]
+        if v[0] != "adt":
+            raise mir.MirError("Option::as_mut of a non-adt")
+        return [([], v)]
+
+    models = {r"^core::slice::<impl \[.*\]>::iter$": m_iter, r"as IntoIterator>::into_iter$": lambda ex, a, pc: [([], a[0])],
+              r"^<std::slice::Iter<.*> as Iterator>::next$": m_next, r"^Option::<.*>::as_mut$": m_as_mut,
+              r"^<Box<dyn ReadSide> as Deref>::deref$": lambda ex, a, pc: [([], a[0])]}
+    gname = [k for k in funcs if re.search(r"^readonly::<impl .*>::get::doit$", k)]
+    tname = [k for k in funcs if re.search(r"^readonly::<impl .*>::touch::doit$", k)]
+    if len(gname) != 1 or len(tname) != 1:
+        raise mir.MirError("readonly::ReadOnlyCache::{get,touch}::doit not found uniquely in the MIR dump")
+    fnames = [gname[0], tname[0]]
+    for ck in (True, False):
+        run = Run(funcs, inline=lambda n: False, extra_models=models)
+        chk = ("ref", [("adt", "Option", 1, {0: ("opaque", "CHECKER", "Arc<dyn Fn>")}) if ck else ("adt", "Option", 0, {})])
+        res = run.ex.run(gname[0], [("ref", [("opaque", "LEVELS", "slice")]), chk, ("opaque", "KEY", "Key")])
+        decls += run.ex.decls
+        for p in run.paths(res):
+            counts["get"] = counts.get("get", 0) + 1
+            evs = p["events"]
+            ok = p["rid"][1] == 0
+            ret = p["rid"][2][0] if p["rid"][2] else None
+            for (e, o) in evs:
+                if o["label"] == "err":
+                    if ok or ret != o["id"]:
+                        bad("errors", p, "read-only get: %s failed and the error is not returned" % e["kind"])
+                    break
+            gets = [(i, e, o) for i, (e, o) in enumerate(evs) if e["kind"] == "L_GET"]
+            order = [re.sub(r"^(LEVEL\d+).*$", r"\1", str(e["args"][0])) for (_i, e, _o) in gets]
+            if order != ["LEVEL%d" % k for k in range(len(order))]:
+                bad("order", p, "read-only get probes %r: not registration order" % (order,))
+            hits = [(i, o["id"]) for (i, _e, o) in gets if o["label"] == "ok-some"]
+            checks = [(i, e, o) for i, (e, o) in enumerate(evs) if e["kind"] == "CHECK"]
+            if not ok:
+                continue
+            first = hits[0][1] if hits else None
+            want = ("Option", 1, (first,)) if first is not None else ("Option", 0, ())
+            if ret != want:
+                bad("order", p, "read-only get does not return the first copy found")
+            if not ck:
+                if checks:
+                    bad("checker-off", p, "read-only get compares copies although no checker is configured")
+                if hits and gets[-1][0] != hits[0][0]:
+                    bad("checker-off", p, "read-only get keeps probing after the first hit although no checker is configured")
+            else:
+                # every later copy is compared with the first one; the first one is rewound after each comparison
+                for (i, fid) in hits[1:]:
+                    cs = [c for c in checks if first in list(_flat(c[1]["args"])) and fid in list(_flat(c[1]["args"]))]
+                    if not cs:
+                        bad("checker", p, "read-only get does not compare the first copy with a later copy")
+                        continue
+                    ci = cs[0][0]
+                    sk = [j for j, (e, o) in enumerate(evs) if e["kind"] == "SEEK" and j > ci and o["label"] == "ok" and first in list(_flat(e["args"])) and "Start" in list(_flat(e["args"]))]
+                    nxt = [c[0] for c in checks if c[0] > ci]
+                    if not sk or (nxt and sk[0] > nxt[0]):
+                        bad("rewind", p, "read-only get does not rewind the first copy after a comparison")
+                # the scan is complete: a level is skipped only after an error
+                # (on success every level up to the end of the list was probed)
+                if len(gets) < MAX_LEVELS and not any("(not more_levels" in c for c in p["pc"]):
+                    bad("checker", p, "read-only get stops scanning before the end of the stack")
+    run = Run(funcs, inline=lambda n: False, extra_models=models)
+    res = run.ex.run(tname[0], [("ref", [("opaque", "LEVELS", "slice")]), ("opaque", "KEY", "Key")])
+    decls += run.ex.decls
+    for p in run.paths(res):
+        counts["touch"] = counts.get("touch", 0) + 1
+        evs = p["events"]
+        ok = p["rid"][1] == 0
+        ret = p["rid"][2][0] if p["rid"][2] else None
+        for (e, o) in evs:
+            if o["label"] == "err":
+                if ok or ret != o["id"]:
+                    bad("errors", p, "read-only touch: %s failed and the error is not returned" % e["kind"])
+                break
+        ts = [re.sub(r"^(LEVEL\d+).*$", r"\1", str(e["args"][0])) for (e, _o) in evs if e["kind"] == "L_TOUCH"]
+        if ts != ["LEVEL%d" % k for k in range(len(ts))]:
+            bad("order", p, "read-only touch probes %r: not registration order" % (ts,))
+        if ok and ret not in ("true", "false"):
+            bad("order", p, "read-only touch does not report found / not found")
+    texts = {
+        "order": ("C13", "the read-only stack is scanned in registration order; get returns the first copy found, touch stops at the first level that has the key"),
+        "checker": ("C14", "with a checker the scan goes on to the end and every later copy is compared with the first one"),
+        "checker-off": ("C14", "without a checker the scan stops at the first hit and nothing is compared"),
+        "rewind": ("C19", "the copy that is returned is rewound after every comparison"),
+        "errors": ("C18", "a failing level, checker or seek fails the lookup with that error"),
+    }
+    obs = []
+    for rule, (tags, t) in texts.items():
+        vs = viol.get(rule, [])
+        goal = "true" if not vs else "(not (or %s))" % " ".join("(and true %s)" % " ".join(pc) for (pc, _m) in vs[:40])
+        obs.append(Obligation("%s: read-only stack: %s" % (tags, t), decls, [], goal, fnames, note=("; ".join(sorted(set(m for (_pc, m) in vs))[:3]) or "no explored path violates the rule"),
+                              native_py=NATIVE_OPS.get(rule)))
+    obs.append(Obligation("witness: read-only stack paths explored", [], [], "false" if counts.get("get", 0) > 10 and counts.get("touch", 0) > 3 else "true", fnames, expect="sat",
+                          note="get: %d paths, touch: %d paths, up to %d levels" % (counts.get("get", 0), counts.get("touch", 0), MAX_LEVELS)))
+    return obs, dict(models=["every callee uninterpreted; slice iteration unrolled up to %d levels" % MAX_LEVELS], inlined=fnames)
 
 
 NATIVE_OPS = {"checker": native_ops_checker, "rewind": native_ops_rewind, "flush": native_ops_flush}
